@@ -1195,3 +1195,55 @@ Proof.
     + destruct (rs_name_unknown rs); cbn [negb fst snd]; ping_fin.
     + cbn [fst snd]. ping_fin.
 Qed.
+
+(* ---------- Referrers end to end ---------- *)
+
+(* unknown capability, registry with the referrers API: the listing of C15_filter, and the
+   capability becomes "supported" *)
+Theorem referrers_unknown_with_api :
+  forall (L : list item) (cap : nat) (ds : nat -> decision)
+         (render : nat -> url -> url -> str) (trailer : nat -> str)
+         (resolve : url -> str -> option url) (c : cfg) (path : str) (fuel : nat) cbu ts,
+    c_kind c = KReferrers ->
+    NoDup (map fst L) -> (forall it, In it L -> fst it <> []) ->
+    (forall i base x, In x (map fst L) ->
+       contains c_gt (render i base (link_target (ds i) base x)) = false) ->
+    (forall i base x, In x (map fst L) ->
+       resolve base (render i base (link_target (ds i) base x)) = Some (link_target (ds i) base x)) ->
+    (forall i, (Z.of_N (d_doc_len (ds i)) <= eff_limit (c_limit c))%Z) ->
+    (forall i, qget k_at (d_extra (ds i)) = None) ->
+    (length L < fuel)%nat ->
+    let api := loop (reg_serve KReferrers L cap ds render trailer) resolve (fun _ => false) c
+                    fuel 0 0 (mkUrl path (referrers_query (c_at c))) [] in
+    let w := referrers_wrap RUnknown cbu api ts in
+    w_out w = Done /\ concat (w_pages w) = filter_referrers L (c_at c) /\
+    w_state w = RSupported /\ w_fell_back w = false.
+Proof.
+  intros L cap ds render trailer resolve c path fuel cbu ts K Hnd Hne Hgt Hres Hfit Hex Hfuel.
+  destruct (referrers_exactly_once L cap ds render trailer resolve c path fuel K Hnd Hne Hgt Hres Hfit Hex Hfuel)
+    as (O & P & _).
+  cbv zeta. unfold referrers_wrap. rewrite O. cbn [w_out w_pages w_state w_fell_back]. auto.
+Qed.
+
+(* unknown capability, registry without the referrers API (every request answered 404
+   without NAME_UNKNOWN) that holds the referrers index under the referrers tag: one request
+   to the API, then the tag schema; the capability becomes "unsupported" *)
+Theorem referrers_unknown_without_api :
+  forall (serve : nat -> url -> response) (resolve : url -> str -> option url) (c : cfg)
+         (cb_fail : nat -> bool) (u : url) (fuel : nat) cbu found size items,
+    c_kind c = KReferrers -> (0 < fuel)%nat ->
+    (forall i rq, rs_status (serve i rq) = 404 /\ rs_name_unknown (serve i rq) = false) ->
+    let api := loop serve resolve cb_fail c fuel 0 0 u [] in
+    let ts := fun k => tag_schema (c_limit c) found size items (c_at c) (fun j => cb_fail (k + j)%nat) in
+    let w := referrers_wrap RUnknown cbu api ts in
+    length (w_reqs w) = 1%nat /\ w_fell_back w = true /\ w_state w = RUnsupported /\
+    w_pages w = fst (ts 0%nat) /\ w_out w = snd (ts 0%nat).
+Proof.
+  intros serve resolve c cb_fail u fuel cbu found size items K Hf H404. cbv zeta.
+  destruct fuel as [|fuel]; [lia|]. cbn [loop]. cbv zeta.
+  destruct (H404 0%nat (mk_request c u [])) as [S N].
+  assert (E : handle c (serve 0%nat (mk_request c u [])) = inl ErrUnsupported).
+  { rewrite (handle_404 c _ K S). now rewrite N. }
+  rewrite E. unfold referrers_wrap. cbn [t_out unsupported_class no_pages t_pages andb t_reqs w_reqs w_fell_back w_state w_pages w_out length].
+  auto.
+Qed.
